@@ -201,6 +201,8 @@ void ReturnHandler::handle_identifier_return(const ASTNode *node) {
             }
             throw ReturnException(*self_var);
         }
+        // self of a primitive receiver (impl I for int): return its value
+        handle_expression_return(node);
     } else {
         Variable *var = interpreter_->find_variable(node->left->name);
         if (var) {
